@@ -120,13 +120,17 @@ def _val(trace, name, default=0):
 
 def _arr(trace, name, n=None):
     v = trace.get(name)
-    if isinstance(v, list):
-        return [_num(x) for x in v]
+    base = [_num(x) for x in v] if isinstance(v, list) else None
     out = {}
     for k, x in trace.items():
         m = re.match(re.escape(name) + r"\[(\d+)[lLuU]*\]$", k)
         if m:
             out[int(m.group(1))] = _num(x)
+    if base is not None:       # whole-array value (often the initial nondet one) overlaid with the element-wise assignments
+        for i, x in out.items():
+            if i < len(base):
+                base[i] = x
+        return base if n is None else (base + [0] * n)[:n]
     if not out and n is None:
         return []
     size = n if n is not None else max(out) + 1
